@@ -71,7 +71,7 @@ func TestVerifC15Chains(t *testing.T) {
 	defer vstats.Flush()
 	rapid.Check(t, func(t *rapid.T) {
 		CrashOnBugs = false
-		depth := rapid.SampledFrom([]int{1, 2, 3, 5, 8, 16, 40, 200}).Draw(t, "depth")
+		depth := rapid.SampledFrom([]int{1, 2, 3, 5, 8, 16, 40, 200, 400}).Draw(t, "depth")
 		prefix := rapid.SampledFrom([]string{"stk", "crash/crash", "a.b", "gopls/bug"}).Draw(t, "prefix")
 		sc := &StackCounter{name: prefix, depth: depth, file: &file{}}
 		nchains := rapid.IntRange(2, 5).Draw(t, "nchains")
